@@ -9,7 +9,8 @@ MANIFEST = {
             "program is (a) built with plain Go and run, (b) compiled as main.xgo by the real XGo compiler, built and run, (c) evaluated by "
             "evalG; (a)=(b) on stdout, exit status and panic value is the property's oracle on the implementation, (a)=(c) validates the "
             "model. Programs outside the model (maps, structs, methods, defer/recover, labelled loops, capturing closures, run-time panics of "
-            "several kinds) and mutated corpus Go mains from /repo are compared two-way (a)=(b).",
+            "several kinds), 38 name-resolution scenarios (one identifier at two scope levels, used in value and in type/constant positions, "
+            "package-level declaration before and after its user) and a fixed list of mutated corpus Go mains are compared two-way (a)=(b).",
     "note": "trusted: Lean kernel (propext/Classical.choice/Quot.sound), the Go toolchain as the reference for Go's meaning, the program "
             "generators (compa/gogen.go, goext.go) and their discipline (no observable slice aliasing, no call mixed with a possibly-panicking "
             "operand, no constant arithmetic), gogen/qiniu x as shipped. Only sampled programs are covered; bounded loops; no floats, no "
@@ -28,7 +29,7 @@ def run(ctx):
         "Go's own toolchain defines the meaning of the Go program (side (a))",
         "generator discipline keeps slice aliasing and gc's evaluation-order freedom unobservable (design_notes/C01.md)",
     ]
-    n_quick, n_thorough = 24, 240
+    n_quick, n_thorough = 18, 240
 
     def post(ctx, outdir, dis):
         st = ctx.coverage.get("distribution", {})
